@@ -454,6 +454,13 @@ class ConcBuilder:
     def func(self, v):
         return v
 
+    def grid(self, name, rows, cols):
+        if rows < 0 or cols < 0 or rows * cols > 64:
+            raise OutOfDomain('grid size')
+        w = [[self.source.str('%s[%d][%d]' % (name, i, j), 's') or ' ' for j in range(cols)] for i in range(rows)]
+        self.objects[name] = w
+        return w
+
     def ghost(self, name, value):
         self.source.ghost[name] = value
         return value
@@ -468,6 +475,26 @@ PRIMS = (int, float, str, bytes, bool, type(None))
 class IoC:
     def __init__(self, content, pos, cls):
         self.content, self.pos, self._cls = content, pos, cls
+
+
+class CGrid:
+    """Concrete grid view (0-based).  ids: identity of the row objects at the time of the snapshot."""
+    def __init__(self, rows, ids):
+        self._rows, self._ids = rows, ids
+        self.len = len(rows)
+
+    def cell(self, i, j):
+        return self._rows[i][j]
+
+    def rowid(self, i):
+        return self._ids[i]
+
+    def rowlen(self, i):
+        return len(self._rows[i])
+
+
+def is_grid(o):
+    return isinstance(o, list) and len(o) > 0 and all(isinstance(x, list) for x in o)
 
 
 class ListC:
@@ -494,6 +521,10 @@ def cview(o):
         return IoC(o.getvalue(), o.tell(), 'io.StringIO')
     if isinstance(o, tuple):
         return tuple(cview(x) for x in o)
+    if isinstance(o, CGrid):
+        return o
+    if is_grid(o):
+        return CGrid(o, [id(x) for x in o])
     if isinstance(o, list):
         return ListC(o)
     if isinstance(o, Frozen):
@@ -551,6 +582,8 @@ def freeze(o, memo):
         r = IoC(o.getvalue(), o.tell(), 'io.BytesIO' if isinstance(o, io.BytesIO) else 'io.StringIO')
         memo[id(o)] = r
         return r
+    if is_grid(o):
+        return CGrid([list(x) for x in o], [id(x) for x in o])
     if isinstance(o, list):
         r = ListC([freeze(x, memo) for x in o])
         return r
@@ -593,7 +626,7 @@ class FrozenNS:
         if name not in self._d:
             raise AttributeError(name)
         v = self._d[name]
-        return v if isinstance(v, (IoC, ListC)) else cview(v)
+        return v if isinstance(v, (IoC, ListC, CGrid)) else cview(v)
 
     def has(self, name):
         return name in self._d
